@@ -80,6 +80,10 @@ class NoneObject:
     def __contains__(a, b):
         return False
 
+    def __hash__(self):
+        # Defining __eq__ disables the default hash, which makes `r.missing in {1, 2}` raise instead of being False
+        return 0
+
     def __len__(self):
         return 0
 
